@@ -203,6 +203,15 @@ func c08ApplyLogFilter(al *log.AccessLogConfig) {
 	case "allow":
 		al.RequestHeaders.AllowList = []string{"user-agent"}
 		al.ResponseHeaders.AllowList = []string{"content-type"}
+	case "allow-enabled":
+		// the access log really is written (to a discarded logger)
+		al.Disable = false
+		al.RequestHeaders.AllowList = []string{"user-agent"}
+		al.ResponseHeaders.AllowList = []string{"content-type"}
+	case "block-enabled":
+		al.Disable = false
+		al.RequestHeaders.BlockList = []string{"authorization", "cookie"}
+		al.ResponseHeaders.BlockList = []string{"set-cookie", "x-verif-trailer", "x-upstream-header"}
 	}
 }
 
@@ -769,13 +778,13 @@ func init() {
 		fmt.Printf("  C08 transparency: requests=%d\n", evals)
 		// the same clusters with access-log header filters configured: every header
 		// set x response shape x route once more (logging options change nothing)
-		for _, lf := range []string{"block", "allow"} {
+		for _, lf := range []string{"block", "allow", "allow-enabled", "block-enabled"} {
 			c08LogFilter = lf
 			wl := newC08World(30 * time.Second)
 			c08LogFilter = ""
 			for _, route := range []string{"local", "forwarded", "agent"} {
 				for _, hd := range c08Hdrs {
-					for _, rs := range []string{"200", "set-cookies", "201-location"} {
+					for _, rs := range []string{"200", "set-cookies", "201-location", "trailer", "chunked"} {
 						c := c08Req{Method: "POST", Path: "/a/b", Query: "a=b", Hdrs: hd, Body: "1", Resp: rs, Route: route}
 						sig, msg := wl.run(c)
 						for r := 0; r < 3 && sig != "" && (sig == "request-failed" || !e4.AllActive(wl.nodes)); r++ {
